@@ -186,6 +186,29 @@ def build(world, tier, rng, safe_modules, known_handlers):
     for fam, cmds in CURATED.items():
         for ci, c in enumerate(cmds):
             add(fam, an(c, plain), core=(ci % 3 == 0))
+    # ---- round seven (seeded change C18v: the "nothing to analyse" exits returned one shared list, which the arithmetic
+    # command's branch appends to): every kind of node the walker knows, in its ordinary AND its degenerate (empty) form, bare /
+    # with a redirect that yields a decision / with a here-document holding a substitution; and the cheap queries that take the
+    # early exits (assignments, test operands, plain expansions).  The degenerate forms with a redirect and the cheap queries
+    # are core items: every ordered pair of them is consecutive in the pair walk.
+    node_forms = {
+        "arith": ["(( ))", "(())", "(( 1 ))", "((i++))"], "cond": ["[[ -d build ]]", "[[ a == b ]]", "[[ x ]]"],
+        "for-arith": ["for ((;;)); do break; done", "for ((i=0;i<1;i++)); do ls; done"], "for": ["for x; do ls; done", "for x in a b; do ls; done"],
+        "select": ["select x in a; do break; done"], "case": ["case x in esac", "case x in a) ;; esac", "case x in a) ls;; esac"],
+        "brace": ["{ :; }"], "subshell": ["( : )"], "if": ["if :; then :; fi", "if :; then :; else :; fi"], "while": ["while false; do :; done"],
+        "until": ["until :; do :; done"], "function": ["f() { :; }", "function f { :; }"], "coproc": ["coproc ls"], "negation": ["! ls", "! :"],
+        "time": ["time ls", "time"], "pipe": ["ls |& cat", ": | :"], "list": [": && :", ": || :", ": ; :", ": & :"], "assign": ["x=1", "a[0]=1", "x+=1"],
+    }
+    suffixes = ["", " > nogrant", " >> /etc/x", " <<EOF\n$(rm x)\nEOF", " <<< $(git push)"]
+    for kind, forms in node_forms.items():
+        for fi, form in enumerate(forms):
+            for si, suf in enumerate(suffixes):
+                if kind in ("function",) and suf:
+                    continue
+                add("nodekind", an(form + suf, plain, CONFIGS[2] if si == 2 else ""), core=(fi == 0 and si in (1, 3)), kind=kind)
+    for c in ["x=1", "FOO=bar ls", "[ -f x ]", "test -n a", "echo ${HOME}", "echo ${x:-y}", "[[ -d build ]]", "(( ))", "for x in a; do ls; done",
+              "read x", "cat <<EOF\nplain\nEOF", "cat <<< word", "echo $((1+2))", "case x in a|b) ls;; esac"]:
+        add("nodekind-victim", an(c, plain), core=True)
     # ---- the same command under every config; the same command and config elsewhere; remote
     crossed = ["git push", "git status", "zap 1", "okcmd a b", "g status", "docker ps", "kubectl get pods", "ls -la", "rm -rf x",
                "python x.py", "echo x > /tmp/f", "echo x > /etc/f", "cat f > out", "frobnicate a", "ls | xargs rm", "git commit -m x"]
